@@ -356,6 +356,11 @@ def judge(m, r=None):
             if not rel_close(tot, power, rt):
                 bad.append(('parseval', 'sum(diag csd)*Fs/NFFT = %r but mean |x|^2 = %r (n=%d NFFT=%d): density divided by Fs*NFFT instead of Fs*n'
                             % (tot.tolist()[:3], power.tolist()[:3], n, N)))
+        # the auto-densities must be what periodogram() returns for that channel with the same settings
+        _, P1 = tsa().periodogram(rows, Fs=Fs, N=m.get('NFFT'), sides=m['sides'])
+        if not rel_close(d.real, np.asarray(P1).reshape(M, -1), rt):
+            bad.append(('diag-ne-periodogram', 'diagonal of periodogram_csd differs from periodogram() of the same channel (n=%d NFFT=%d): max ratio %.6g'
+                        % (n, N, float(np.max(np.abs(d.real)) / max(np.max(np.abs(P1)), 1e-300)))))
         a = m.get('scale', 1.5)
         r2 = run_impl(put_data(dict(m), a * s))
         if not rel_close(np.asarray(r2['C']), abs(a) ** 2 * Cm, rt):
